@@ -87,6 +87,7 @@ theorem encodeParams_objs (ovs : List (Obj × Int)) (values : List (String × PV
     obtain ⟨o, v⟩ := ov
     obtain ⟨ho, hr⟩ := hok (o, v) (List.mem_cons_self ..)
     have hl := hlook (o, v) (List.mem_cons_self ..)
+    have hlV : lookupV o.name values = some (.atom (.int v)) := by simp only [lookupV, hl]
     have e1 : ((o, v) :: rest).length + 2 + extra = (rest.length + 2 + extra) + 1 := by simp; omega
     have e2 : rest.length + 2 + extra = rest.length + extra + 2 := by omega
     -- the state the parameter is encoded from
@@ -102,7 +103,7 @@ theorem encodeParams_objs (ovs : List (Obj × Int)) (values : List (String × PV
     refine ⟨s', ?_, ?_⟩
     · rw [e1]
       simp only [List.map_cons, encodeParams, Obj.toParam]
-      simp only [bind, hl, Option.isNone_some, Bool.and_false, Bool.false_eq_true, if_false, pure, run_pure]
+      simp only [bind, hl, hlV, Option.isNone_some, Bool.and_false, Bool.false_eq_true, if_false, pure, run_pure]
       simp only [Obj.toParam] at hstep hrun
       rw [e2] at hrun ⊢
       by_cases hre : rest.isEmpty = true
